@@ -61,18 +61,19 @@ ASSUME LET h == <<"a">> IN
 
 \* ---------------------------------------------------------------- option space
 Baseline == [fmode |-> "off", req |-> "none", forb |-> "none", instr |-> "none", userf |-> TRUE, consts |-> "userc",
-             numb |-> TRUE, metric |-> FALSE, ans |-> "plain"]
+             numb |-> TRUE, metric |-> FALSE, ans |-> "partial"]
 DimDom == [fmode : {"off", "bsin", "bsincos", "wcos", "wsinh", "wnone"}, req : {"none", "cos", "f"},
            forb : {"none", "times0", "plus2", "sin"}, instr : {"none", "z", "c", "pi"}, userf : BOOLEAN,
            consts : {"userc", "std", "delpi"}, numb : BOOLEAN, metric : BOOLEAN, ans : {"plain", "exempt", "partial"}]
 Weight(d) == Cardinality({fld \in DOMAIN Baseline : d[fld] # Baseline[fld]})
 HasVars == Part # "numerical"
-BaseD == IF HasVars THEN Baseline ELSE [Baseline EXCEPT !.numb = FALSE]
+\* the baseline has a half-credit alternative answer (entry-wise partial credit for matrices; summations have none)
+BaseD == [Baseline EXCEPT !.numb = HasVars, !.ans = IF Part = "sum" THEN "plain" ELSE "partial"]
 WeightP(d) == Cardinality({fld \in DOMAIN BaseD : d[fld] # BaseD[fld]})
 ValidDims(d) ==
   /\ WeightP(d) <= MaxDims
   /\ ~HasVars => (d.numb = FALSE /\ d.instr # "z")
-  /\ Part = "sum" => d.ans # "partial"
+  /\ Part = "sum" => d.ans # "partial"                        \* a summation has one answer
   /\ d.instr = "c" => d.consts = "userc"                      \* an instructor constant must exist
   /\ (d.instr = "pi" => d.consts # "delpi")
 Dims == {d \in DimDom : ValidDims(d)}
@@ -110,7 +111,7 @@ AnswerIds(d) ==                                                  \* sequence of 
   IF Part = "sum" THEN <<[boxes |-> <<<<"n1">>, <<"n3">>, AuthorMain(d)>>, g |-> "full"]>>
   ELSE IF Part = "matrix" THEN <<[boxes |-> <<Vec2(AuthorMain(d), <<"y">>)>>, g |-> "full"]>>
   ELSE <<[boxes |-> <<AuthorMain(d)>>, g |-> "full"]>>
-       \o (IF d.ans = "partial" THEN <<[boxes |-> <<Part1>>, g |-> "half"]>> ELSE <<>>)
+       \o (IF d.ans # "plain" THEN <<[boxes |-> <<Part1>>, g |-> "half"]>> ELSE <<>>)
 
 CfgOf(d) ==
   [kind |-> Part,
@@ -128,7 +129,7 @@ CfgOf(d) ==
    required |-> IF d.req = "none" THEN {} ELSE {d.req},
    forbidden |-> Forb[d.forb],
    metric |-> d.metric,
-   entryPartial |-> (Part = "matrix" /\ d.ans = "partial"),
+   entryPartial |-> (Part = "matrix" /\ d.ans # "plain"),
    dummy |-> IF Part = "sum" THEN "n" ELSE "",
    val |-> ValTab,
    answers |-> LET as == AnswerIds(d) IN
@@ -179,13 +180,13 @@ NRRich == NRQuick \cup
           { <<"cos", "fnx">>, <<"abs", "fn0">>, <<"si", "fn0">>, <<"f", "fnx">>, <<"sin", "var">>, <<"w", "var">>,
             <<"a", "var">>, <<"am2", "var">>, <<"am0", "var">>, <<"a0", "var">>, <<"A1", "var">>, <<"as1", "var">>,
             <<"ab1", "var">>, <<"sib2", "var">>, <<"m", "suf">>, <<"q", "suf">>, <<"pct", "suf">>, <<"k", "var">>,
-            <<"z", "fn0">>, <<"z", "suf">>, <<"y", "var">>, <<"x", "suf">>, <<"n", "var">>, <<"sinh", "fnx">> }
+            <<"z", "fn0">>, <<"z", "suf">>, <<"y", "var">>, <<"n", "var">> }
 NR == IF Rich THEN NRRich ELSE NRQuick
 Forms == IF Rich THEN {"mul0", "0mul", "cancel", "pow0", "bare"} ELSE {"mul0", "cancel"}
-Positions == (IF Rich THEN {"add", "front", "expo", "arg", "one", "den", "neg"} ELSE {"add", "expo", "arg"})
+Positions == (IF Rich THEN {"add", "front", "expo", "arg", "one", "den"} ELSE {"add", "expo", "arg"})
              \cup (IF Part = "matrix" THEN {"arr"} ELSE {}) \cup (IF Part = "sum" /\ Rich THEN {"lower"} ELSE {})
 Bases(d) == (IF Rich THEN {"C1", "C2", "W"} ELSE {"C1", "W"})
-            \cup (IF d.ans = "partial" \/ (Rich /\ Part # "sum") THEN {"P"} ELSE {})
+            \cup (IF d.ans # "plain" /\ Part # "sum" THEN {"P"} ELSE {})
 Spacings(d) == IF d.forb = "none" THEN {"tight"} ELSE {"tight", "spaced"}
 
 \* ---------------------------------------------------------------- two-level enumeration
@@ -196,47 +197,59 @@ MkCase(d, b, nm, role, form, pos, sp, sub) ==
    ans |-> LET as == AnswerIds(d) IN
            [i \in 1..Len(as) |-> [boxes |-> [j \in 1..Len(as[i].boxes) |-> Join(as[i].boxes[j], 1)], g |-> as[i].g]]]
 LexBoxes(sub, sp) == [i \in 1..Len(sub) |-> Box(sub[i], sp)]
-OutOf(d, sub, sp) == LET cfg == CfgOf(d) bx == LexBoxes(sub, sp) IN
-                     Outcome(cfg, bx) @@ [must |-> MustReject(cfg, bx)]
-Init == c \in {[kind |-> "seed", d |-> d] : d \in Dims} /\ out = [why |-> "seed"]
+
+(* ---- laws.  All laws of a case are evaluated from ONE computation of its facts inside the action (an invariant per
+   law would recompute the parse and the exact evaluation ten times); the names of the laws found false are stored
+   in out.broken and every INVARIANT below is the membership test for its law. *)
+\* the templates are neutral: when every name has a value (author's scope) and the value is exact, the submission
+\* has the value of its base (the "bare" form is neutral only for atoms that are 0, so it is excluded)
+NeutralOK(cfg, bx, b, nm, form) ==
+  (nm # "none" /\ form # "bare") =>
+   LET ps == ParseAll(bx)
+       bb == LexBoxes(Control(b), "tight")
+       pb == ParseAll(bb) IN
+   (AllTrees(ps) /\ BadVars(cfg, bx, ps, FALSE) = {} /\ BadFuncs(cfg, ps) = {} /\ BadSufs(cfg, ps) = {})
+      => LET v == ValueOf(cfg, bx, ps) vb == ValueOf(cfg, bb, pb) IN
+         IsBad(v) \/ Compare(v, vb).r \in {"yes", "unknown"}
+\* the unrestricted control formulas are graded as the answers say (sanity of the generator and of Worth)
+ControlOK(d, b, nm, o) ==
+  (nm = "none" /\ o.why = "unrestricted") =>
+   o.allowed = (IF b = "C1" THEN {"credit"}
+                ELSE IF b = "P" THEN (IF d.ans # "plain" THEN {"partial"} ELSE {"zero"})
+                ELSE IF b = "W" THEN {"zero"} ELSE o.allowed)
+Broken(d, cfg, bx, F, o, b, nm, form) ==
+  {law \in {"Must", "NoCredit", "Scope", "Blanks", "OnlyRestr", "OutDomain", "Neutral", "Control"} :
+     ~ CASE law = "Must" -> LawRejectFamilyF(F)
+         [] law = "NoCredit" -> LawRestrictedNoCreditF(F)
+         [] law = "Scope" -> LawScopeUnconditionalF(F)
+         [] law = "Blanks" -> LawBlanksIrrelevantF(cfg, bx, F)
+         [] law = "OnlyRestr" -> LawOnlyRestrictionsRefuseF(cfg, bx, F)
+         [] law = "OutDomain" -> (o.allowed \subseteq ErrFamily \cup Graded /\ o.allowed # {})
+         [] law = "Neutral" -> NeutralOK(cfg, bx, b, nm, form)
+         [] OTHER -> ControlOK(d, b, nm, o)}
+OutOf(d, sub, sp, b, nm, form) ==
+  LET cfg == CfgOf(d) bx == LexBoxes(sub, sp) F == Facts(cfg, bx) o == OutcomeF(F) IN
+  o @@ [must |-> MustRejectF(F), broken |-> Broken(d, cfg, bx, F, o, b, nm, form)]
+
+Init == c \in {[kind |-> "seed", d |-> d] : d \in Dims} /\ out = [why |-> "seed", broken |-> {}]
 Next == /\ c.kind = "seed"
         /\ \/ \E b \in Bases(c.d), nr \in NR, form \in Forms, pos \in Positions, sp \in Spacings(c.d) :
                 LET sub == Submission(b, nr[1], nr[2], form, pos) IN
                 /\ c' = MkCase(c.d, b, nr[1], nr[2], form, pos, sp, sub)
-                /\ out' = OutOf(c.d, sub, sp)
+                /\ out' = OutOf(c.d, sub, sp, b, nr[1], form)
            \/ \E b \in Bases(c.d), sp \in Spacings(c.d) :
                 /\ c' = MkCase(c.d, b, "none", "none", "none", "none", sp, Control(b))
-                /\ out' = OutOf(c.d, Control(b), sp)
+                /\ out' = OutOf(c.d, Control(b), sp, b, "none", "none")
 IsCase == c.kind # "seed"
 
-\* the lexeme boxes of the current case, rebuilt from the rendered ids (the dumped text IS the case)
-CaseSub == IF c.nm = "none" THEN Control(c.b) ELSE Submission(c.b, c.nm, c.role, c.form, c.pos)
-CaseBoxes == LexBoxes(CaseSub, c.sp)
-CaseCfg == CfgOf(c.d)
-
-\* ---------------------------------------------------------------- laws
-LawMust == IsCase => LawRejectFamily(CaseCfg, CaseBoxes)
-LawNoCredit == IsCase => LawRestrictedNoCredit(CaseCfg, CaseBoxes)
-LawScope == IsCase => LawScopeUnconditional(CaseCfg, CaseBoxes)
-LawPerm == LawPermitted(CfgOf(c.d))
-LawBlanks == IsCase => LawBlanksIrrelevant(CaseCfg, CaseBoxes)
-LawExempt == LawAuthorExempt(CfgOf(c.d))
-LawOnlyRestr == IsCase => LawOnlyRestrictionsRefuse(CaseCfg, CaseBoxes)
-LawOutDomain == IsCase => /\ out.allowed \subseteq ErrFamily \cup Graded
-                          /\ out.allowed # {}
-                          /\ out.must = MustReject(CaseCfg, CaseBoxes)
-(* the templates are neutral: when every name has a value (author's scope) and the value is exact, the submission
-   has the value of its base (the "bare" form is neutral only for atoms that are 0, so it is excluded) *)
-LawNeutral == (IsCase /\ c.nm # "none" /\ c.form # "bare") =>
-   LET ps == ParseAll(CaseBoxes)
-       bb == LexBoxes(Control(c.b), "tight")
-       pb == ParseAll(bb) IN
-   (AllTrees(ps) /\ BadVars(CaseCfg, CaseBoxes, ps, FALSE) = {} /\ BadFuncs(CaseCfg, ps) = {} /\ BadSufs(CaseCfg, ps) = {})
-      => LET v == ValueOf(CaseCfg, CaseBoxes, ps) vb == ValueOf(CaseCfg, bb, pb) IN
-         IsBad(v) \/ Compare(v, vb).r \in {"yes", "unknown"}
-\* the unrestricted control formulas are graded as the answers say (sanity of the generator and of Worth)
-LawControl == (IsCase /\ c.nm = "none" /\ out.why = "unrestricted") =>
-   out.allowed = (IF c.b \in {"C1"} THEN {"credit"}
-                  ELSE IF c.b = "P" THEN (IF c.d.ans = "partial" THEN {"partial"} ELSE {"zero"})
-                  ELSE IF c.b = "W" THEN {"zero"} ELSE out.allowed)
+LawMust == "Must" \notin out.broken            \* MustReject => only student-facing refusals allowed, never a grade
+LawNoCredit == "NoCredit" \notin out.broken    \* restricted or out of scope => credit / partial credit never allowed
+LawScope == "Scope" \notin out.broken          \* out of scope => rejected as undefined, whatever the formula is worth
+LawBlanks == "Blanks" \notin out.broken        \* blanks change nothing
+LawOnlyRestr == "OnlyRestr" \notin out.broken  \* without the restrictions: same scope, same worth, graded normally
+LawOutDomain == "OutDomain" \notin out.broken  \* allowed sets are non-empty sets of known classes
+LawNeutral == "Neutral" \notin out.broken      \* the cheating templates really are neutral
+LawControl == "Control" \notin out.broken      \* unrestricted control formulas are graded as the answers say
+LawPerm == LawPermitted(CfgOf(c.d))            \* algebra of blacklist / whitelist / whitelist=[None]
+LawExempt == LawAuthorExempt(CfgOf(c.d))       \* every author answer has a value in the author's scope
 =============================================================================
